@@ -17,6 +17,7 @@ RULE = ('every mnemonic of the assembler vocabulary (x86mndb.mnemo_lookup with t
         'each accepted line are examined. A case = (syntax, line); non-trivial = miasmX returned >= 1 candidate; classes = (syntax, mnemonic, shape, immediate class).')
 RULE += " Round 6: symbol-relative operands in nine spellings (N+sym[regs], -N+sym[regs], sym[regs+N], sym[regs-N], N[regs], N[regs+M] ...) with one and two registers; an 'optimised' shard sends the boundary lines and a third of the Intel corpus through a child interpreter started with -O and demands exactly the candidates of the normal interpreter (a range check may not live in an assert)."
 RULE += ' Round 7: AT&T symbol differences with an addend ((a-b)-N, (a-b)+N, a-b-N, N+a-b ...) in displacement and immediate positions, the reference assembly defining the two symbols as absolute zero.'
+RULE += ' Round 10: numbers in every spelling both assemblers read alike (decimal, 0x / 0X, digit case, leading zeros) in 7 operand positions; one accepted line in three is assembled a second time and must return the same candidates.'
 ASSUMPTIONS = ['GNU as 2.40 (--32) defines what a line denotes and whether an immediate fits (error or "shortened" warning = does not fit); objdump 2.40 reads the candidates',
                'when GNU as rejects a line miasmX accepts, only self-consistency is checked (one full-length instruction, all candidates with the same reference text)']
 
@@ -60,6 +61,17 @@ def run_batch(sh, batch, syntax):
             sh.counters['asm_raises(C10)'] += 1
             c = None
         cands.append(c)
+        if c and len(cands) % 3 == 0:
+            # the candidates of a line do not depend on the line having been assembled before: the same text once more
+            sh.counters['assembled_twice'] += 1
+            try:
+                c2 = f(str(line))
+            except Exception as e_:
+                c2 = 'raises %s' % type(e_).__name__
+            if c2 != c and not (isinstance(c2, list) and [bytes(x) for x in c2] == [bytes(x) for x in c]):
+                sh.case((syntax, line, 'twice'), True, cls=None)
+                sh.violation('%s/second-assembly-differs' % syntax, '%r: first %s, assembled again %s' % (line, [bytes(x).hex() for x in c][:4], c2 if not isinstance(c2, list) else [bytes(x).hex() for x in c2][:4]),
+                             {'line': line, 'syntax': syntax, 'mnemonic': mn, 'shape': shape, 'imm': v})
     ref = gnuref.gas([b[0] for b in batch], syntax)
     # objdump of the reference encodings and of all candidates
     ref_ok = [i for i, (g, msg) in enumerate(ref) if g]
